@@ -320,6 +320,8 @@ def r4(cx):
                 continue
             if r[0] == "call" and r[1].endswith("Task::is_kind"):
                 continue  # the kind admission that precedes it
+            if r[0] == "call" and r[1].endswith("::contains_key") and g.truth is True:
+                continue  # the declared-output check inside the rebuild loop (a missing key refuses the action: C05.R1)
             if r[0] in ("bin",) and "event" in str(r):
                 # `action.event == Push` admission test: both sides go on
                 if g.truth is False:
